@@ -117,9 +117,26 @@ func runL1GateCase(e *l1Env, bc *blobCase, a *alteration, store string, script [
 		r.Distinct("l1_infeasible_order", ss+" ["+scriptString(order)+" realised] "+why)
 		r.Count("l1_gate_scripts_infeasible", 1)
 	}
+	keyClass := "hook-order"
 	if verr != nil {
 		r.Distinct("verify_errors", trimErr(verr))
-		return
+		// the refusal must be final: retry (second time after another prefetch walk)
+		for k := 0; k < 2 && verr != nil; k++ {
+			if k == 1 {
+				vf.Recover(func() { o.vr.Cache() })
+			}
+			r.Count("l1gate_verify_retries_after_refusal", 1)
+			x, err := o.vr.VerifyTOC(digest.Digest(a.Pin))
+			verr = err
+			if err == nil {
+				rd = x
+			}
+		}
+		if verr != nil {
+			return
+		}
+		keyClass = "after-verify-retry"
+		replay["verify_history"] = "VerifyTOC(pinned) refused (prefetch had recorded the bad chunk), then returned nil on a retry on the same reader"
 	}
 	// the execution is a real one whatever the script's fate: judge it
 	checkVerifyNil(r, "L1", bc, a, a.Pin, replay)
@@ -143,7 +160,7 @@ func runL1GateCase(e *l1Env, bc *blobCase, a *alteration, store string, script [
 				continue
 			}
 			if bad := bc.judgeBytes(op.Path, op.Off, buf[:n]); bad != "" {
-				r.Violate("ii:read-returns-altered-bytes:L1:hook-order",
+				r.Violate("ii:read-returns-altered-bytes:L1:"+keyClass,
 					fmt.Sprintf("read after VerifyTOC==nil returned non-genuine bytes under hook script %s (realised %s): %s (%s, %s)", ss, scriptString(order), bad, a.Desc, bc), replay)
 			}
 		}
@@ -151,7 +168,7 @@ func runL1GateCase(e *l1Env, bc *blobCase, a *alteration, store string, script [
 			vals, _ := o.rc.values("")
 			for k, v := range vals {
 				if !bc.genuine[sha256hex(v)] {
-					r.Violate("iii:cache-holds-non-genuine:L1:hook-order",
+					r.Violate("iii:cache-holds-non-genuine:L1:"+keyClass,
 						fmt.Sprintf("VerifyTOC returned nil and the prefetch walk committed a non-genuine chunk (%d bytes, key %s…) under hook script %s (realised %s; outcome %s) (%s, %s)", len(v), k[:8], ss, scriptString(order), outcome, a.Desc, bc), replay)
 				}
 			}
